@@ -7,7 +7,7 @@ import types
 from harness import common, trees
 from harness.common import cps, uncps
 
-BRIDGE = ('Gemato.Bridge.FindTop', 'Gemato.Bridge.SrcFindTop', 'Gemato.Bridge.SrcText', 'Gemato.Bridge.SrcVerify')
+BRIDGE = ('Gemato.Bridge.FindTop', 'Gemato.Bridge.SrcFindTop', 'Gemato.Bridge.SrcText', 'Gemato.Bridge.SrcVerify', 'Gemato.Bridge.SrcCodec')
 PROPS = ['Gemato.Props.C15']
 NAMES = ['aa', 'a', 'aab', 'cc', 'a a', 'é']
 
